@@ -75,7 +75,11 @@ class Gateway:
 
     @classmethod
     def from_json(cls, json_string: str):
-        return Gateway(Labels.from_json(json_string))
+        lab = Labels.from_json(json_string)
+        if lab is None:
+            # like every other from_json: nothing stored means no object
+            return None
+        return Gateway(lab)
 
     def __str__(self):
         ar = list()
